@@ -558,10 +558,13 @@ impl PrefixCodeGroup {
             }
 
             // A simple code naming the same symbol twice is a code with a single symbol, which is read using zero bits.
+            // The two symbols of a simple code both have a code length of one, so as in any canonical code the smaller
+            // symbol is assigned the code `0`, whichever order they are listed in.
             let symbols = match second_symbol {
-                Some(second_symbol) if second_symbol != first_symbol => {
-                    vec![(first_symbol, vec![0]), (second_symbol, vec![1])]
-                }
+                Some(second_symbol) if second_symbol != first_symbol => vec![
+                    (Ord::min(first_symbol, second_symbol), vec![0]),
+                    (Ord::max(first_symbol, second_symbol), vec![1]),
+                ],
                 _ => vec![(first_symbol, vec![])],
             };
             CanonicalHuffmanTree::from_symbols(symbols)?
